@@ -88,6 +88,15 @@ def findings():
     probe("lanczos_zero_operand_nan", "a Lanczos matrix function applied to a zero vector (or an operand with a zero column) returns NaN instead of 0: lanczos divides the "
           "start vector by its norm", p_lz, "exp(PSD(Dense(diag(.5,1,2,3))),Lanczos()) @ zeros((4,1))")
 
+    def p_adjf():
+        from cola.linalg import apply_unary
+        F = apply_unary(lambda x: np.exp(0.5j * x), ops.Adjoint(ops.Dense(np.array([[1.0]]))))
+        y = complex(np.asarray(F.to_dense())[0, 0])
+        return abs(y - np.exp(0.5j)) > 1e-8, y
+    probe("apply_unary_adjoint_nonreal_f", "apply_unary(f, Adjoint(A)) returns Adjoint(apply_unary(f, A)) = conj(f)(A^H): wrong for a user function with f(conj x) != conj f(x) "
+          "(e.g. x -> exp(0.5j x)); exp/log/pow satisfy the symmetry off their branch cuts (hypothesis ConjOK of C09_unary_rule_sound)", p_adjf,
+          "apply_unary(lambda x: exp(0.5j*x), Adjoint(Dense([[1.]]))).to_dense()")
+
     def p_ident():
         y = np.asarray(pow(ops.Identity((2, 2), np.float64), 2).to_dense())
         return not np.allclose(y, np.eye(2)), y.tolist()
@@ -110,6 +119,8 @@ class FN:
             return np.log(x)
         if self.name == "user":
             return x * x + 1
+        if self.name == "cuser":
+            return np.exp(0.5j * x)
         return x ** self.alpha
 
     def cola(self, A, alg):
@@ -126,6 +137,8 @@ class FN:
             return isqrt(A, *args)
         if self.name == "user":
             return apply_unary(lambda x: x * x + 1, A, *args)
+        if self.name == "cuser":
+            return apply_unary(lambda x: np.exp(0.5j * x), A, *args)      # a complex-valued function of a (possibly real) operator
         return pow(A, self.alpha, *args)
 
     def ref(self, D):
@@ -136,6 +149,8 @@ class FN:
             return sl.logm(D)
         if self.name == "user":
             return D @ D + np.eye(D.shape[0])
+        if self.name == "cuser":
+            return sl.expm(0.5j * D)
         a = self.alpha
         if a == 0.5:
             return sl.sqrtm(D)
@@ -147,7 +162,7 @@ class FN:
 
     @property
     def domain(self):
-        if self.name in ("exp", "user"):
+        if self.name in ("exp", "user", "cuser"):
             return "any"
         if self.name == "pow" and self.alpha == int(self.alpha):
             return "any" if self.alpha >= 0 else "nonzero"
@@ -419,7 +434,7 @@ def make_alg(spec):
 
 
 def pick_fn(rnd):
-    r = rnd.choice(["exp", "exp", "log", "sqrt", "isqrt", "pow", "pow", "pow", "user"])
+    r = rnd.choice(["exp", "exp", "log", "sqrt", "isqrt", "pow", "pow", "pow", "user", "cuser"])
     if r == "pow":
         return FN("pow", rnd.choice(ALPHAS))
     if r == "sqrt":
@@ -575,10 +590,13 @@ def run(ctx):
             continue
         kinds_ = ukinds(u)
         # ---- regions spoiled by recorded defects
+        if fn.name == "cuser" and "Adj" in kinds_ and "apply_unary_adjoint_nonreal_f" in present:
+            bump(skipped, "apply_unary_adjoint_nonreal_f")
+            continue
         if "pow_kron_branch" in present and "Kron" in kinds_ and fn.domain == "rhp" and cplx:
             bump(skipped, "pow_kron_branch")
             continue
-        if cplx and c05_region(u):
+        if (cplx or fn.name == "cuser") and c05_region(u):
             bump(skipped, "c05_scalar_keeps_annotations")
             continue
         if shortcut and kk == -1:
@@ -601,7 +619,16 @@ def run(ctx):
         k = rnd.choice([1, 2, 3])
         X = g.standard_normal((n, k)) + (1j * g.standard_normal((n, k)) if cplx else 0)
         X = X.astype(getattr(np, dt))
-        case_js = dict(stream="A", tree=ujs(u), dt=dt, alg=algspec, **fn.js())
+        xkind = "same"
+        if rnd.random() < 0.3:
+            # the operand's dtype is independent of the operator's: complex on real, double on single precision
+            if not cplx and rnd.random() < 0.7:
+                X = (X + 1j * g.standard_normal((n, k))).astype(np.complex128) if rnd.random() < 0.7 else (1j * X).astype(np.complex128)
+                xkind = "complex_on_real"
+            elif f32:
+                X = X.astype(np.complex128 if cplx else np.float64) + 1e-3 * g.standard_normal((n, k))
+                xkind = "double_on_single"
+        case_js = dict(stream="A", tree=ujs(u), dt=dt, operand=xkind, alg=algspec, **fn.js())
         evals += 1
         bump(hist, f"{fn.name}{'' if fn.alpha is None else fn.alpha}:{rule}")
         for kd in set(kinds_):
@@ -741,7 +768,7 @@ def run(ctx):
         # spectrum classes: Hermitian declared PSD / declared SelfAdjoint only (Auto then takes the general Eig rule) / general
         # diagonalisable; "_rep" = REPEATED eigenvalues (multiplicity 2-3) with eigenspaces in general position; "kronsq" = S (x) S
         cls = rnd.choice(["psd", "psd", "gen", "psd0", "psd_rep", "sa", "sa_rep", "sa_rep", "gen_rep", "kronsq",
-                          "kron3", "kron3", "ksum3", "prod3", "psd_blocks"])
+                          "kron3", "kron3", "ksum3", "prod3", "psd_blocks", "shift_sing", "shift_sing"])
         if cls == "prod3" and fn.domain != "any":
             cls = "kron3"
         if cls == "psd0" and fn.domain != "any":
@@ -762,6 +789,34 @@ def run(ctx):
         comp_build = None
         if cls in ("kron3", "ksum3", "prod3"):
             comp_build, M, lam, n = composite(rnd, g, cls, cplx)
+        elif cls == "shift_sing":
+            # lazily assembled positive definite operator B + c I whose part B is SINGULAR (low-rank Gram matrix, path-graph Laplacian,
+            # block diagonal with a zero block): the sum has no zero eigenvalue although B has
+            n = rnd.randint(3, 6)
+            kindB = rnd.choice(["gram", "laplacian", "zero_block"])
+            if kindB == "gram":
+                G_ = g.standard_normal((n, rnd.randint(1, n - 1))) + (1j * g.standard_normal((n, 1)) if cplx else 0)
+                Bm = G_ @ G_.conj().T
+            elif kindB == "laplacian":
+                Bm = 2 * np.eye(n) - np.eye(n, k=1) - np.eye(n, k=-1)
+                Bm[0, 0] = Bm[-1, -1] = 1.0
+                Bm = Bm * rnd.uniform(0.5, 2.0)
+            else:
+                q_ = rnd.randint(1, n - 1)
+                Qb = L.rand_unitary(g, q_, cplx)
+                Bb = (Qb * np.array(L.separated(rnd, q_, lo=0.5))) @ Qb.conj().T
+                Bm = sl.block_diag((Bb + Bb.conj().T) / 2, np.zeros((n - q_, n - q_)))
+            cshift = rnd.uniform(0.4, 2.0)
+            Bm = Bm.astype(np.complex128) if cplx else np.real(Bm)
+            M = Bm + cshift * np.eye(n)
+            lam = None
+            sform = rnd.choice(["scalarmul", "c_times_I", "I_times_c_first"])
+
+            def comp_build(dt_, Bm=Bm, cshift=cshift, sform=sform, n=n):
+                ndt = getattr(np, dt_)
+                Bop = ops.Dense(Bm.astype(ndt))
+                Iop = ops.ScalarMul(cshift, (n, n), ndt) if sform == "scalarmul" else cshift * ops.Identity((n, n), ndt)
+                return cola.PSD((Iop + Bop) if sform == "I_times_c_first" else (Bop + Iop))
         elif cls == "psd_blocks":
             # two decoupled Hermitian blocks: basis vectors and block-supported operand columns have a small Krylov grade
             n1, n2 = rnd.randint(1, 3), rnd.randint(2, 3)
@@ -888,6 +943,9 @@ def run(ctx):
                 bump(skipped, "lanczos_batch_breakdown_nan")
             cols = keep or [randcol()]
         X = np.stack(cols, 1).astype(getattr(np, dt))
+        if not cplx and rnd.random() < 0.3 and not (okind == "identity"):
+            X = (X + 1j * g.standard_normal(X.shape)).astype(np.complex128) if rnd.random() < 0.7 else (1j * X).astype(np.complex128)
+            okind = okind + "+complex_on_real"
         k = X.shape[1]
         case_js = dict(stream="C", M=M.tolist() if not cplx else [[str(x) for x in r] for r in M], cls=cls, dt=dt, alg=algspec, cap=cap, operand=okind,
                        X=X.tolist() if not cplx else [[str(x) for x in r] for r in X], **fn.js())
@@ -964,7 +1022,7 @@ def run(ctx):
             except Exception as e:
                 mism.append(dict(oracle_fail=False, case=case_js, harness_error=f"Krylov oracle data: {type(e).__name__}: {e}"))
         condV = 1.0
-        if not krylov and not shortcut and not (alg == "Eigh" or (alg in ("Auto", "none") and (cls.startswith("psd") or cls in ("kronsq", "kron3", "ksum3")))):
+        if not krylov and not shortcut and not (alg == "Eigh" or (alg in ("Auto", "none") and (cls.startswith("psd") or cls in ("kronsq", "kron3", "ksum3", "shift_sing")))):
             condV = float(np.linalg.cond(np.linalg.eig(np.asarray(A.to_dense()))[1]))      # the general eig rule: conditioning of LAPACK's eigenbasis
             if condV > 1e4:
                 bump(skipped, "ill_conditioned_eigenbasis")
@@ -977,7 +1035,7 @@ def run(ctx):
             # dense rule at the root = a ULeaf: reuse the rational model
             rule = "Auto" if alg in ("Auto", "none") else alg
             orc = Oracles(fn, dt, rule, present)
-            u = dict(k="Leaf", M=M, psd=cls.startswith("psd") or cls in ("kronsq", "kron3", "ksum3"))
+            u = dict(k="Leaf", M=M, psd=cls.startswith("psd") or cls in ("kronsq", "kron3", "ksum3", "shift_sing"))
             try:
                 term = ucoq(u, dt, orc, False)
             except Exception as e:
